@@ -52,6 +52,9 @@ func C02_Slice[T signal.SignalTypes]() {
 		child.AppendSample(vf.Any[T]("x"))
 		vf.Assert("child-grew", child.Len() == C*(end-start)+1)
 		vf.Assert("parent-length-unchanged-by-child-append", parent.Len() == pl && parent.Length() == plen)
+		// slicing the same frames again gives another independent header
+		again := parent.Slice(start, end)
+		vf.Assert("same-frames-again-is-a-new-view", again != child && again.Len() == C*(end-start) && again.Cap() == C*(pcap-start))
 	}
 	full := child.Slice(0, child.Capacity())
 	if full.Len() == 0 {
